@@ -22,7 +22,7 @@ RULE = ("1..4 ROUNDS of [store 0..12 more rows, then impute] with the SAME imput
         "input equals x and there are n_samples predictions; deep snapshots of x, the subset and storage.get_data() are unchanged - also when a model evaluation inside impute raises (every "
         "fifth round injects such a fault); observations differ in key order and some carry an optional key: the model input must have "
         "exactly the instance's keys in the instance's order; defaults are also given as defaultdict / dict with __missing__. "
-        "A quarter of the cases store SPARSE observations (defaultdicts that leave features out: reading one must not write into it). WRAPPED: the model function is the library's own SklearnWrapper (built with the feature names) and n_samples is 1..700 (255/256/257, 300, 513, 700): exactly n_samples predictions, inputs as above. "
+        "In two fifths of the cases the storage is a user SUBCLASS whose get_data() exposes only the most recent 1..2 rows (the imputer must read the storage through that documented method). A quarter of the cases store SPARSE observations (defaultdicts that leave features out: reading one must not write into it). WRAPPED: the model function is the library's own SklearnWrapper (built with the feature names) and n_samples is 1..700 (255/256/257, 300, 513, 700): exactly n_samples predictions, inputs as above. "
         "Non-trivial: proper non-empty subset, >=2 distinct stored rows, n_samples>=2, x differs from every stored row on the subset; "
         "distinct by case digest.")
 ASSUMPTIONS = ["one-shot iterators are not generated as subsets (no caller passes one; re-iteration is inherent in n_samples > 1)",
@@ -66,6 +66,9 @@ def run_case(case):
     labels = [tag, case['storage']['cls']]
     with rng.patched_random(src):
         storage = c07.make(scfg)
+        if case.get('window_view'):
+            # a user subclass overriding the documented get_data(): only the most recent rows count as "currently stored"
+            storage.__class__ = _window_view(type(storage), case['window_view'])
         if tag == 'default':
             defaults = {n: num(v, mode) for n, v in zip(names, case['defaults'])}
             imp = DefaultImputer(model, cfgs.defaults_container(defaults, case.get('defaults_container', 'dict')))
@@ -119,6 +122,24 @@ def _obs(names, values, mode, perm=0, opt=None):
     if opt is not None:
         x['opt0'] = num(opt, mode)      # an optional key that only some observations carry
     return x
+
+
+_WINDOW_VIEWS = {}
+
+
+def _window_view(cls, m):
+    key = (cls, m)
+    if key not in _WINDOW_VIEWS:
+        class WindowView(cls):
+            def get_data(self):
+                xs, ys = super().get_data()
+                xs, ys = list(xs), list(ys)
+                return xs[-m:], (ys[-m:] if ys else ys)
+
+            def __len__(self):
+                return len(self.get_data()[0])
+        _WINDOW_VIEWS[key] = WindowView
+    return _WINDOW_VIEWS[key]
 
 
 def _rv(r, f):
@@ -275,6 +296,7 @@ def cases(draw):
         'defaults_container': draw(st.sampled_from(['dict', 'dict', 'defaultdict', 'missing'])),
         'vary_keys': draw(st.booleans()),      # stored observations differ in key order and some carry an optional key
         'sparse_rows': style != 'typed' and draw(st.integers(0, 3)) == 0,   # defaultdict observations that leave features out
+        'window_view': draw(st.sampled_from([None, None, None, 1, 2])),     # storage is a user subclass whose get_data() exposes the last m rows only
     }
 
 
